@@ -370,3 +370,35 @@ spill_rt!(c16_spill_float, Value::Float64(f64::from_bits(kani::any())), bits_eq)
 //@ bound: one scalar variant per harness
 //@ oracle: deserialize(serialize(v)) == v bit for bit; bytes written == returned length; reader fully consumed
 spill_rt!(c16_spill_ts, Value::Timestamp(Timestamp::from_micros(kani::any())), bits_eq);
+
+fn s1(b: u8) -> arcstr::ArcStr { let arr = [b]; arcstr::ArcStr::from(unsafe { std::str::from_utf8_unchecked(&arr) }) }
+
+//@ property: C16
+//@ tier: thorough
+//@ optional: yes
+//@ cap_s: 600
+//@ mem_gb: 10
+//@ encodes: OrderableValue::{eq,cmp,hash} String arm and String vs Int64/Bool/Timestamp, HashableValue::{eq,hash} String arm
+//@ symbolic: three one-byte ASCII strings (content symbolic), an Int64 payload
+//@ bound: strings of exactly one byte
+//@ oracle: String ordering is the byte ordering; Eq/Ord/Hash laws on strings; a string never equals a value of another type and orders by type ordinal against it
+#[kani::proof]
+#[kani::unwind(6)]
+fn c16_string_laws() {
+    let (x, y, z): (u8, u8, u8) = (kani::any(), kani::any(), kani::any());
+    kani::assume(x < 128 && y < 128 && z < 128);
+    let (a, b, c) = (OrderableValue::String(s1(x)), OrderableValue::String(s1(y)), OrderableValue::String(s1(z)));
+    assert!((a == b) == (x == y));
+    assert!(a.cmp(&b) == x.cmp(&y));
+    assert!(a.cmp(&b) == b.cmp(&a).reverse());
+    if a.cmp(&b) != Ordering::Greater && b.cmp(&c) != Ordering::Greater { assert!(a.cmp(&c) != Ordering::Greater); }
+    if a == b { assert!(stream(&a).same(&stream(&b))); }
+    let i = OrderableValue::Int64(kani::any());
+    assert!(a != i && i != a);
+    assert!(i.cmp(&a) == Ordering::Less && a.cmp(&i) == Ordering::Greater);
+    let (ha, hb) = (HashableValue(Value::String(s1(x))), HashableValue(Value::String(s1(y))));
+    assert!((ha == hb) == (x == y));
+    if ha == hb { assert!(stream(&ha).same(&stream(&hb))); }
+    kani::cover!(x == y && y != z);
+    std::mem::forget((a, b, c, i, ha, hb));
+}
